@@ -212,8 +212,10 @@ Definition scalars_meet_definitions : Prop :=
 (* ---- the projection part.  Its coefficient half is stated as a Prop in Dyadic.v
    (coefficients_meet_definitions: if every reported coefficient is SOME summation-tree evaluation, in
    binary64 with one rounding per product and per addition, of its projector row with the record, then
-   chk_coefs accepts) and proved (Properties.v coefficients_meet_definitions_all).  The residual half -
-   "the reported residual is the two-pass standard deviation, evaluated in binary64 in any summation
-   order, of d - B c with B c evaluated by any summation tree  ==>  chk_resid accepts" - is NOT proved:
-   resid_tol is a paper derivation (design.d/C13.md) validated by the correspondence runs.  That gonum's
-   kernels are summation trees of this kind is likewise validated by the runs only. *)
+   chk_coefs accepts) and proved (Properties.v coefficients_meet_definitions_all); the dyadic references
+   are the definitions of Model.v (dyadic_references_are_definitions).  The residual half is proved at
+   the real-number level (Properties.v residual_stddev_any_tree: dastard's two-pass stdDev of d - B c,
+   B c by any summation trees, is within E of the exact standard deviation, with the same structure as
+   resid_tol); that the dyadic over-approximation resid_tol dominates that E, so that chk_resid
+   accepts, is NOT proved.  That gonum's kernels are summation trees of this kind is validated by the
+   correspondence runs only. *)
